@@ -126,5 +126,60 @@ def run(F):
             r.inst(iid, b.file_line(), "ok", cfg=sorted(cfg))
     r.floor("Components::subset implementations on structs", n_impl, 15)
     r.floor("implementations with configuration fields", n_cfg, 12)
+    _subset_order(F, r)
     r.exhaustive = True
     return [r]
+
+
+def _subset_order(F, r):
+    """R12b — a sub-model keeps the *order* of the requested index list (and repeated indices): every `subset` implementation
+    that selects records itself (does not just delegate to another `subset`) iterates over its `component_list` parameter;
+    filtering the parent's records with `component_list.contains(i)` treats the list as a set — the ideal-gas record of one
+    component then ends up next to the residual parameters of another when the wrapper combines the two sub-models."""
+    from cfg import Defs
+    n = 0
+    for b in F.bodies:
+        if b.is_closure() or b.d.get("name") != "subset" or b["arg_count"] != 2:
+            continue
+        if "::tests::" in b.path:
+            continue
+        bodies = [b] + [c for c in F.bodies if c.path.startswith(b.path + "::{closure")]
+        names = [callee(t)[2] for bb in bodies for _, t in bb.calls()]
+        if not any(x in names for x in ("iter", "into_iter", "index", "select", "from_shape_fn")):
+            continue        # pure delegation
+        n += 1
+        iid = "subset-order|%s" % b.path
+        uses_contains = False
+        for bb in bodies:
+            for _, t in bb.calls():
+                if callee(t)[2] == "contains":
+                    uses_contains = True
+        # an iterator over the index list parameter (local 2) must exist
+        defs = Defs(b)
+        over_list = False
+        for _, t in b.calls():
+            if callee(t)[2] in ("iter", "into_iter", "len", "map", "from_shape_fn") and t["args"]:
+                a = t["args"][0]
+                if a.get("k") in ("copy", "move"):
+                    l = a["place"]["l"]
+                    for _ in range(6):
+                        if l == 2:
+                            over_list = True
+                            break
+                        ds = defs.of(l)
+                        if len(ds) == 1 and ds[0][0] == "stmt" and ds[0][4]["k"] in ("use", "ref", "cast"):
+                            rv = ds[0][4]
+                            l = rv["place"]["l"] if rv["k"] == "ref" else rv["op"]["place"]["l"] if rv["op"].get("k") in ("copy", "move") else -1
+                        elif len(ds) == 1 and ds[0][0] == "call" and callee(ds[0][2])[2] in ("deref", "iter", "into_iter", "as_ref") and ds[0][2]["args"] and ds[0][2]["args"][0].get("k") in ("copy", "move"):
+                            l = ds[0][2]["args"][0]["place"]["l"]
+                        else:
+                            break
+        if uses_contains or not over_list:
+            r.inst(iid, b.file_line(), "violation")
+            r.fail(iid, b.file_line(),
+                   "%s: the sub-model's records are %s — the order (and multiplicity) of the requested component list is lost, so the sub-model "
+                   "does not pair with sub-models built by the other `subset` implementations" % (
+                       b.path, "selected by filtering the parent's records with `contains`" if uses_contains else "not selected by iterating over the requested index list"))
+        else:
+            r.inst(iid, b.file_line(), "ok")
+    r.floor("subset implementations that select records themselves", n, 4)
